@@ -35,7 +35,7 @@ Definition chan_of (i : instr) : option chan :=
   | IFlushStart c _ | IFlush c _ _ | IFlushSend c _ _ _ | IHClose c | ICloseBufs c | INotifyO c | IDClose1 c
   | IDelMapTest c | IDelMapDo c | IFilenoNone c | IDelAct c _ | ISockClose c | ISockNone c
   | IAcqO c | ITryAcqO c | IRelO c | IWaitO c | IWake c _ | IAcqR c | IRelR c
-  | ISvcStart c | IApp c | IErrTask c | IWsChk1 c | IFbh c | IFbhAfter c | IFbhLoop c | IWsChk2 c
+  | ISvcStart c | ISvcChkWc c | IApp c | IErrTask c | IWsChk1 c | IFbh c | IFbhChk c | IFbhAfter c | IFbhLoop c | IWsChk2 c
   | IWsAppend c _ | IWsFlush c | IWsAfter c | ISvcEnd c | ISetCwf c | ISvcPop c | ISvcTail c | IPull c | IAddTask c
   | KAccTry c | KFlushExc c | KRelO c | KRelR c | KSvcTry c | KSvcTry2 c | KWorkerTop c => Some c
   end.
